@@ -784,6 +784,19 @@ func checkABI(pr *Prog, nf *nef.File, di *compiler.DebugInfo) (exclUnused bool, 
 	return exclUnused, nil
 }
 
+// scriptDiff describes the first difference of two scripts.
+func scriptDiff(a, b []byte) string {
+	if len(a) != len(b) {
+		return fmt.Sprintf("%d and %d bytes", len(a), len(b))
+	}
+	for i := range a {
+		if a[i] != b[i] {
+			return fmt.Sprintf("first difference at offset %d of %d: %x / %x", i, len(a), a[i:min(i+8, len(a))], b[i:min(i+8, len(b))])
+		}
+	}
+	return "none"
+}
+
 func usesDefer(pr *Prog) bool {
 	var walk func(l []*Node) bool
 	walk = func(l []*Node) bool {
@@ -865,6 +878,7 @@ func checkCase(c Case, o *vt.Obs) error {
 		rejected   string
 		crash      string
 		abiErr     error
+		unstable   string
 		exclUnused bool
 		res        []vmResult
 	}
@@ -879,6 +893,16 @@ func checkCase(c Case, o *vt.Obs) error {
 		if err != nil {
 			prs[i].rejected = classify(err)
 			continue
+		}
+		// the same source must give the same script every time (the verdicts below would otherwise depend on the run)
+		for k := 0; k < 2 && prs[i].unstable == "" && !vt.Known(kLambdaOrder) && !vt.Known(kBytesLitOrder); k++ {
+			nf2, _, err2, crash2 := compileProg(filepath.Join(dir, pkgName(i), "prog.go"), srcs[i])
+			switch {
+			case crash2 != "" || err2 != nil:
+				prs[i].unstable = fmt.Sprintf("compiled the first time, then: %s %v", crash2, err2)
+			case !bytes.Equal(nf.Script, nf2.Script):
+				prs[i].unstable = "two compilations of the same source give different scripts: " + scriptDiff(nf.Script, nf2.Script)
+			}
 		}
 		prs[i].exclUnused, prs[i].abiErr = checkABI(pr, nf, di)
 		offs := map[string]int{}
@@ -932,6 +956,11 @@ func checkCase(c Case, o *vt.Obs) error {
 				if f == "anon-exported-param" {
 					expected = true
 				}
+				// goto is valid Go that the compiler refuses by name (it has no way to translate arbitrary jumps);
+				// a program with goto that does compile is compared like any other
+				if f == "goto" && strings.Contains(prs[i].rejected, "goto statement is not supported") {
+					expected = true
+				}
 			}
 			if !expected {
 				// the generator stays inside the documented dialect: a program the Go toolchain builds must compile
@@ -945,6 +974,9 @@ func checkCase(c Case, o *vt.Obs) error {
 		if prs[i].exclUnused {
 			o.Label("excl:" + kDebugUnused)
 			o.Excluded()
+		}
+		if prs[i].unstable != "" {
+			return where("the compiler is not deterministic: %s", prs[i].unstable)
 		}
 		if prs[i].abiErr != nil {
 			return where("manifest / debug info / script disagree: %v", prs[i].abiErr)
